@@ -1375,6 +1375,8 @@ func main() {
 		cmdCatalogue(a[2])
 	case "c27":
 		cmdC27(a[2], atoi(a[3]), a[4], atoi(a[5]))
+	case "c28":
+		cmdC28(a[2], atoi(a[3]), a[4], atoi(a[5]), a[6])
 	default:
 		hx.Die("unknown mode %s", a[1])
 	}
